@@ -4,6 +4,31 @@ include!("../../generated/generated_sbix.rs");
 
 impl Sbix {
     fn compile_header_flags(&self) -> u16 {
-        self.flags.bits() & 1
+        // bit 0 must always be set; the other defined bits (draw outlines) are the caller's
+        self.flags.bits() | HeaderFlags::ALWAYS_SET.bits()
+    }
+}
+
+#[cfg(test)]
+mod tests {
+    use super::*;
+    use read_fonts::FontReadWithArgs;
+
+    #[test]
+    fn draw_outlines_flag_is_written() {
+        let table = Sbix::new(
+            HeaderFlags::ALWAYS_SET | HeaderFlags::DRAW_OUTLINES,
+            vec![Strike::new(16, 72, vec![4, 4])],
+        );
+        let bytes = crate::dump_table(&table).unwrap();
+        let read = read_fonts::tables::sbix::Sbix::read_with_args(FontData::new(&bytes), &1).unwrap();
+        assert_eq!(
+            read.flags(),
+            HeaderFlags::ALWAYS_SET | HeaderFlags::DRAW_OUTLINES
+        );
+        // bit 0 is set even if the caller left it out
+        let bytes = crate::dump_table(&Sbix::new(HeaderFlags::empty(), vec![])).unwrap();
+        let read = read_fonts::tables::sbix::Sbix::read_with_args(FontData::new(&bytes), &0).unwrap();
+        assert_eq!(read.flags(), HeaderFlags::ALWAYS_SET);
     }
 }
